@@ -4,7 +4,8 @@
     offset); a push is consistent when its data is S[off, off+n). *)
 From Coq Require Import List ZArith Permutation.
 From V Require Import Gen.Params FrameSorter.Model FrameSorter.InvCheck FrameSorter.Spec
-  FrameSorter.ProofsInvOk FrameSorter.ProofsRun.
+  FrameSorter.ProofsInvOk FrameSorter.ProofsRun
+  RecvStream.Model RecvStream.Spec RecvStream.ProofsCrypto RecvStream.ProofsRecv.
 Import ListNotations.
 Open Scope Z_scope.
 
@@ -98,3 +99,98 @@ Proof.
   - eexists. split; [vm_compute; reflexivity|]. split; vm_compute; reflexivity.
 Qed.
 Print Assumptions C03_sorter_example.
+
+(** ** ReceiveStream (over the sorter, with the stream flow controller's final-size and window
+    rules; [w] is the advertised stream window) *)
+
+(** For every interleaving of consistent frames (FIN anywhere), RESET_STREAM(_AT), reads and
+    peeks of any size, CancelRead and closeForShutdown that ends without a transport error:
+    the concatenated Read output is S[0, readPos) — each byte once, contiguously —, it never
+    exceeds what was received, a known final size equals the highest offset received, and
+    once io.EOF was returned the read position is exactly the final size. *)
+Theorem C03_read_exact : forall S w ops r,
+  0 <= w < MaxBC -> Forall rvalid ops -> rsrun S (rrun_init w) ops = Some r ->
+  rr_out r = slice S 0 (rpos (rr_st r)) /\
+  rpos (rr_st r) <= fc_highest (rr_st r) /\
+  (fc_final (rr_st r) = true -> finalOffset (rr_st r) = fc_highest (rr_st r)) /\
+  (rr_eof r = true -> fc_final (rr_st r) = true /\ rpos (rr_st r) = finalOffset (rr_st r)).
+Proof. exact recv_read_exact. Qed.
+Print Assumptions C03_read_exact.
+
+(** One Read in any reachable state: never the model's Bug value (sorter panic, fuel), at most
+    n bytes, exactly S[readPos, readPos+len), and io.EOF only with readPos = final size. *)
+Theorem C03_read_step : forall S w ops r n s' d e bug,
+  0 <= w < MaxBC -> Forall rvalid ops -> rsrun S (rrun_init w) ops = Some r ->
+  0 <= n -> Read (rr_st r) n = (s', d, e, bug) ->
+  bug = false /\ d = slice S (rpos (rr_st r)) (len d) /\ rpos s' = rpos (rr_st r) + len d /\ len d <= n /\
+  (e = EEOF -> fc_final s' = true /\ rpos s' = finalOffset s').
+Proof. exact recv_read_step. Qed.
+Print Assumptions C03_read_step.
+
+(** Rejections (any state): a frame beyond an established final size, a FIN with a different
+    final size, a FIN below the highest offset received => FINAL_SIZE_ERROR; a frame beyond
+    the window => FLOW_CONTROL_ERROR; in either case the sorter, the current frame, the read
+    position and the final offset are unchanged. *)
+Theorem C03_reject_stream_frame : forall s data off fin cb s' e,
+  handleStreamFrame s data off fin cb = (s', e) ->
+  let endp := off + len data in
+  ((fc_final s = true /\ (fc_highest s < endp \/ (fin = true /\ endp <> fc_highest s))) \/
+   (fc_final s = false /\ fin = true /\ endp < fc_highest s) -> e = FFinalSize) /\
+  (fc_final s = false /\ fc_highest s < endp /\ fc_window s < endp -> e = FFlowControl) /\
+  (e = FFinalSize \/ e = FFlowControl ->
+     sorter s' = sorter s /\ rpos s' = rpos s /\ cur s' = cur s /\ rpif s' = rpif s /\ finalOffset s' = finalOffset s).
+Proof. exact recv_reject_frame. Qed.
+Print Assumptions C03_reject_stream_frame.
+
+(** ** Crypto stream *)
+
+Theorem C03_crypto_cap_value : MaxCrypto = 16384.
+Proof. exact MaxCrypto_val. Qed.
+Print Assumptions C03_crypto_cap_value.
+
+(** CRYPTO data beyond 16 KiB => CRYPTO_BUFFER_EXCEEDED, state unchanged. *)
+Theorem C03_reject_crypto_buffer : forall s data off, MaxCrypto < off + len data ->
+  HandleCryptoFrame s data off = (s, CBufferExceeded).
+Proof. exact crypto_reject_buffer. Qed.
+Print Assumptions C03_reject_crypto_buffer.
+
+(** After Finish: CRYPTO data above the highest offset received => PROTOCOL_VIOLATION;
+    anything else is ignored; the state is unchanged either way. *)
+Theorem C03_reject_crypto_after_finish : forall s data off,
+  c_finished s = true -> off + len data <= MaxCrypto ->
+  HandleCryptoFrame s data off = (s, if c_highest s <? off + len data then CProtocolViolation else CNil).
+Proof. exact crypto_after_finish. Qed.
+Print Assumptions C03_reject_crypto_after_finish.
+
+(** Every error-free crypto history delivers S[0, readPos), never beyond the cap. *)
+Theorem C03_crypto_read_exact : forall S ops c,
+  Forall cvalid ops -> csrun S crun_init ops = Some c ->
+  cr_out c = slice S 0 (readPos (c_sorter (cr_st c))) /\
+  readPos (c_sorter (cr_st c)) <= MaxCrypto /\ Inv S (c_sorter (cr_st c)).
+Proof. exact crypto_read_exact. Qed.
+Print Assumptions C03_crypto_read_exact.
+
+(** Non-vacuity of the stream theorems: out-of-order overlapping frames with FIN, partial
+    reads, EOF exactly at 193. *)
+Example C03_recv_example :
+  let ops := [ROFrame 64 129 true (Some 0); RORead 10; ROFrame 0 100 false (Some 1); RORead 50; ROPeek 100;
+              RORead 1000; RORead 5] in
+  Forall rvalid ops /\
+  exists r, rsrun sbyte (rrun_init 300) ops = Some r /\ rr_out r = slice sbyte 0 193 /\ rr_eof r = true /\
+            finalOffset (rr_st r) = 193.
+Proof.
+  cbv zeta. split.
+  - repeat constructor; solve [vm_compute; first [reflexivity | intro; discriminate]].
+  - eexists. split; [vm_compute; reflexivity|]. repeat split; vm_compute; reflexivity.
+Qed.
+Print Assumptions C03_recv_example.
+
+Example C03_crypto_example :
+  let ops := [COFrame 4 60; COFrame 0 10; COGet; COGet; COFinish] in
+  Forall cvalid ops /\ exists c, csrun sbyte crun_init ops = Some c /\ cr_out c = slice sbyte 0 64.
+Proof.
+  cbv zeta. split.
+  - repeat constructor; solve [vm_compute; first [reflexivity | intro; discriminate]].
+  - eexists. split; vm_compute; reflexivity.
+Qed.
+Print Assumptions C03_crypto_example.
